@@ -138,6 +138,43 @@ class _CanonCalls(ast.NodeTransformer):
         return node
 
 
+    def visit_BinOp(self, node):
+        # ``1 + x`` is ``x + 1``: commutative arithmetic with a *numeric* literal on the left
+        # (a str/bytes literal would make + a concatenation) carries the literal on the right
+        self.generic_visit(node)
+        if isinstance(node.op, (ast.Add, ast.Mult, ast.BitAnd, ast.BitOr, ast.BitXor)) and \
+                isinstance(node.left, ast.Constant) and \
+                type(node.left.value) in (int, float) and \
+                not isinstance(node.right, ast.Constant):
+            node.left, node.right = node.right, node.left
+        return node
+
+    def visit_Compare(self, node):
+        # ``CONST == x`` and ``x == CONST`` are one term: symmetric comparisons carry their
+        # constant-like operand (literal, ALL_CAPS name such as packet.PONG) on the right
+        self.generic_visit(node)
+        if len(node.ops) == 1 and isinstance(node.ops[0], (ast.Eq, ast.NotEq, ast.Is, ast.IsNot)):
+            l, r = node.left, node.comparators[0]
+            cl, cr = _constant_like(l), _constant_like(r)
+            if (cl and not cr) or (not cl and not cr and ast.unparse(l) > ast.unparse(r)):
+                node.left, node.comparators = r, [l]
+        return node
+
+
+def _constant_like(e):
+    if isinstance(e, ast.Constant):
+        return True
+    if isinstance(e, (ast.List, ast.Tuple, ast.Set)):
+        return all(_constant_like(x) for x in e.elts)
+    if isinstance(e, ast.UnaryOp):
+        return _constant_like(e.operand)
+    if isinstance(e, ast.Attribute):
+        return e.attr.isupper() and (isinstance(e.value, ast.Name) or _constant_like(e.value))
+    if isinstance(e, ast.Name):
+        return e.id.isupper() and len(e.id) > 1
+    return False
+
+
 class ModuleInfo:
     def __init__(self, name, path, relpath, src):
         self.name = name
